@@ -1,13 +1,22 @@
 # coding=utf-8
 """
-Translator: /repo -> lean/ReplayModel/Generated/*.lean (facts, data only).
-Facts are read reflectively from the live objects (or probed behaviourally), never by
-pattern-matching source text. Files are rewritten only when their content changes, so a
-no-op run keeps `lake build` a no-op.
+Translator: /repo -> lean/ReplayModel/Generated/Facts.lean (facts, data only).
+Facts are read reflectively from the live objects or probed behaviourally, never by
+pattern-matching source text, so a refactor that keeps behaviour keeps the facts.
+The file is rewritten only when its content changes (keeps `lake build` a no-op).
+The proof files state `Generated.x = <spec>` by `decide`, so the kernel re-checks the
+facts against what the code says now.
 """
+import io
+import json
 import os
+import struct
+import subprocess
+import sys
 
 from . import common
+
+GEN = os.path.join(common.LEAN, 'ReplayModel', 'Generated', 'Facts.lean')
 
 
 def _write_if_changed(path, content):
@@ -19,7 +28,167 @@ def _write_if_changed(path, content):
     return True
 
 
+def lean_str(s):
+    return '"' + s.replace('\\', '\\\\').replace('"', '\\"') + '"'
+
+
+def lean_list(items):
+    return '[' + ', '.join(items) + ']'
+
+
+def lean_bool(b):
+    return 'true' if b else 'false'
+
+
+# ------------------------------------------------------------------------------------
+# extraction (runs in a fresh interpreter so that module-level state of /repo is clean)
+# ------------------------------------------------------------------------------------
+
+def extract():
+    """returns (facts dict, list of extraction failures)"""
+    common.repo_on_path()
+    facts, broken = {}, []
+
+    def attempt(name, fn):
+        try:
+            facts[name] = fn()
+        except Exception as e:  # noqa
+            broken.append('fact %s could not be extracted: %r' % (name, e))
+            facts[name] = None
+
+    def masks():
+        from .impl import defs as idefs
+        m = idefs.observed_masks()
+        return [m['client'], m['internal'], m['cell'], m['base']] + [1 if x else 0 for x in m['exposed_flags']]
+    attempt('masks', masks)
+
+    def flags():
+        from replay_unpack.core.entity_def.constants import EntityFlags
+        return sorted([(k, v) for k, v in vars(EntityFlags).items() if not k.startswith('_') and isinstance(v, int)], key=lambda kv: (kv[1], kv[0]))
+    attempt('flagValues', flags)
+
+    def infinity():
+        from replay_unpack.core.entity_def.data_types import INFINITY
+        return INFINITY
+    attempt('infinity', infinity)
+
+    def default_header():
+        from replay_unpack.core.entity_def.entity_description import EntityMethod
+        m = EntityMethod('m', True, [])
+        return m._variable_header_size if hasattr(m, '_variable_header_size') else m.get_size_in_bytes()
+    attempt('defaultHeaderSize', default_header)
+
+    def simple_types():
+        from replay_unpack.core.entity_def.data_types import Alias
+        return sorted((k, v.__name__) for k, v in Alias.SIMPLE_TYPES.items())
+    attempt('simpleTypes', simple_types)
+
+    def numeric_table():
+        """behavioural probe of every fixed-size leaf type: bytes consumed, signedness,
+        float-ness, byte order"""
+        from replay_unpack.core.entity_def.data_types import Alias
+        out = []
+        for name, cls in sorted(Alias.SIMPLE_TYPES.items()):
+            try:
+                obj = cls()
+            except TypeError:
+                continue
+            size = obj.get_size_in_bytes()
+            if not isinstance(size, int) or size >= 0xFFFF:
+                continue
+            # consumed bytes
+            s = io.BytesIO(bytes(range(1, 65)))
+            v = obj.create_from_stream(s)
+            used = s.tell()
+            if isinstance(v, tuple):
+                # vector of float32: component i must be the float of bytes 4i..4i+3 little endian
+                comps = len(v)
+                ok_le = all(struct.pack('<f', x) == bytes(range(1 + 4 * i, 5 + 4 * i)) for i, x in enumerate(v))
+                out.append((name, used, 'vec%d' % comps, ok_le))
+                continue
+            allff = obj.create_from_stream(io.BytesIO(b'\xff' * used))
+            one = obj.create_from_stream(io.BytesIO(b'\x01' + b'\x00' * (used - 1)))
+            if isinstance(allff, float):
+                le = struct.pack('<f' if used == 4 else '<d', v) == bytes(range(1, 1 + used))
+                out.append((name, used, 'float', le))
+            else:
+                out.append((name, used, 'signed' if allff == -1 else 'unsigned', one == 1))
+        return out
+    attempt('numericTable', numeric_table)
+
+    def packet_tables():
+        from replay_unpack.clients import wows, wot, wowp
+        out = {}
+        for label, cls, version in (('wowsOld', wows.ReplayPlayer, ['0', '10', '0']), ('wowsNew', wows.ReplayPlayer, ['12', '6', '0']),
+                                    ('wot', wot.ReplayPlayer, '1.8.0'), ('wowp', wowp.ReplayPlayer, ['2', '1', '17'])):
+            mapping = cls._get_packets_mapping(cls.__new__(cls), version)
+            out[label] = sorted((k, v.__module__.split('.')[2 if 'clients' in v.__module__ else 1] + ':' + v.__name__) for k, v in mapping.items())
+        return out
+    attempt('packetTables', packet_tables)
+
+    def container():
+        from replay_unpack import replay_reader as rr
+        return {'magic': list(rr.REPLAY_SIGNATURE),
+                'keys': sorted((ext, list(key)) for ext, key in rr.TYPE_TO_KEY.items()),
+                'extensions': sorted(rr.ALLOWED_TYPES)}
+    attempt('container', container)
+
+    return facts, broken
+
+
+def render(facts):
+    L = []
+    L.append('/-')
+    L.append('GENERATED by harness/facts.py from /repo — do not edit. Data only.')
+    L.append('-/')
+    L.append('namespace ReplayModel.Generated')
+    L.append('')
+    m = facts.get('masks')
+    if m is not None:
+        L.append('/-- masks passed by `Entity.__init__` (client, internal, cell, base) and which call asks for the exposed (sorted) index -/')
+        L.append('def masks : List Nat := %s' % lean_list(str(x) for x in m))
+    f = facts.get('flagValues')
+    if f is not None:
+        L.append('def flagValues : List (String × Nat) := %s' % lean_list('(%s, %d)' % (lean_str(k), v) for k, v in f))
+    if facts.get('infinity') is not None:
+        L.append('def infinity : Nat := %d' % facts['infinity'])
+    if facts.get('defaultHeaderSize') is not None:
+        L.append('def defaultHeaderSize : Nat := %d' % facts['defaultHeaderSize'])
+    st = facts.get('simpleTypes')
+    if st is not None:
+        L.append('def simpleTypes : List (String × String) := %s' % lean_list('(%s, %s)' % (lean_str(k), lean_str(v)) for k, v in st))
+    nt = facts.get('numericTable')
+    if nt is not None:
+        L.append('/-- probed: (type name, bytes consumed, kind, little-endian) -/')
+        L.append('def numericTable : List (String × Nat × String × Bool) := %s' % lean_list(
+            '(%s, %d, %s, %s)' % (lean_str(n), u, lean_str(k), lean_bool(le)) for n, u, k, le in nt))
+    pt = facts.get('packetTables')
+    if pt is not None:
+        for label, rows in sorted(pt.items()):
+            L.append('def packetTable_%s : List (Nat × String) := %s' % (label, lean_list('(%d, %s)' % (k, lean_str(v)) for k, v in rows)))
+    c = facts.get('container')
+    if c is not None:
+        L.append('def magic : List Nat := %s' % lean_list(str(x) for x in c['magic']))
+        L.append('def keys : List (String × List Nat) := %s' % lean_list('(%s, %s)' % (lean_str(e), lean_list(str(x) for x in k)) for e, k in c['keys']))
+        L.append('def extensions : List String := %s' % lean_list(lean_str(e) for e in c['extensions']))
+    L.append('')
+    L.append('end ReplayModel.Generated')
+    return '\n'.join(L) + '\n'
+
+
 def regenerate():
-    """Returns a list of broken fact obligations (extraction failures)."""
-    broken = []
-    return broken
+    """Runs the extraction in a fresh interpreter; returns the list of broken fact
+    obligations (extraction failures)."""
+    p = subprocess.run([common.PY, '-m', 'harness.facts'], cwd=common.VERIF, stdout=subprocess.PIPE, stderr=subprocess.PIPE, text=True)
+    if p.returncode != 0:
+        return ['facts translator failed: %s' % p.stderr[-500:]]
+    out = json.loads(p.stdout.strip().split('\n')[-1])
+    _write_if_changed(GEN, out['lean'])
+    return out['broken']
+
+
+if __name__ == '__main__':
+    import logging
+    logging.disable(logging.CRITICAL)
+    facts, broken = extract()
+    sys.stdout.write(json.dumps({'lean': render(facts), 'broken': broken}) + '\n')
